@@ -25,7 +25,6 @@ import (
 	. "github.com/siglens/siglens/pkg/segment/structs"
 	. "github.com/siglens/siglens/pkg/segment/utils"
 
-	dtu "github.com/siglens/siglens/pkg/common/dtypeutils"
 	"github.com/siglens/siglens/pkg/utils"
 
 	log "github.com/sirupsen/logrus"
@@ -423,9 +422,9 @@ func compareNumberDte(recDte *DtypeEnclosure, qValDte *DtypeEnclosure, op Filter
 	case SS_DT_FLOAT:
 		switch op {
 		case Equals:
-			return dtu.AlmostEquals(recDte.FloatVal, qValDte.FloatVal), nil
+			return recDte.FloatVal == qValDte.FloatVal, nil
 		case NotEquals:
-			return !dtu.AlmostEquals(recDte.FloatVal, qValDte.FloatVal), nil
+			return recDte.FloatVal != qValDte.FloatVal, nil
 		case LessThan:
 			return recDte.FloatVal < qValDte.FloatVal, nil
 		case LessThanOrEqualTo:
